@@ -391,12 +391,18 @@ def compare(it, op, a, b, node):
         else:
             r = False if type(a) is not type(b) else None
         if r is None:
-            return VUnknown("is", "bool")
+            u = VUnknown("is", "bool")
+            u.operands = (a, b)
+            u.negated = op == "IsNot"
+            return u
         return VConst(r if op == "Is" else not r)
     if op in ("In", "NotIn"):
         r = contains(it, b, a)
         if r is None:
-            return VUnknown("in", "bool")
+            u = VUnknown("in", "bool")
+            u.operands = (a, b)
+            u.negated = op == "NotIn"
+            return u
         return VConst(r if op == "In" else not r)
     if op in ("Eq", "NotEq") and isinstance(a, VObj) and isinstance(b, VObj) and a.inst.ext == "torch.device" and b.inst.ext == "torch.device":
         same = None
